@@ -131,6 +131,53 @@ def endOfDaySubMicro (s : Str) : Bool :=
   | some (24, 0, 0, some fd, _) => (fd.take 6).all (· == '0') && (fd.drop 6).any (· != '0')
   | _ => false
 
+/-- `Gregorian*.fromstring` (datetime.py:700-880): the patterns
+gYear `^(year)(tz)?$`, gYearMonth `^(year)-(MM)(tz)?$`, gMonth `^--(MM)(tz)?$`, gMonthDay `^--(MM)-(DD)(tz)?$`,
+gDay `^---(DD)(tz)?$` with the year handling of `fromstring` and the constructor's defaults -/
+def gOfLex (k : GKind) (v11 : Bool) (s : Str) : Except Err DT :=
+  let body := pyStripAll s
+  match k with
+  | .gYear =>
+    let (neg, yd, rest) := splitYear body
+    if yd.length < 4 then .error .value else
+    match parseTzTail rest with
+    | some tz => do
+      let y ← yearOfLex v11 neg yd
+      gMk .gYear y 0 0 tz
+    | none => .error .value
+  | .gYearMonth =>
+    let (neg, yd, rest) := splitYear body
+    if yd.length < 4 then .error .value else
+    match rest with
+    | '-' :: m1 :: m2 :: tail =>
+      match two m1 m2, parseTzTail tail with
+      | some mo, some tz => do
+        let y ← yearOfLex v11 neg yd
+        gMk .gYearMonth y mo 0 tz
+      | _, _ => .error .value
+    | _ => .error .value
+  | .gMonth =>
+    match body with
+    | '-' :: '-' :: m1 :: m2 :: tail =>
+      match two m1 m2, parseTzTail tail with
+      | some mo, some tz => gMk .gMonth 0 mo 0 tz
+      | _, _ => .error .value
+    | _ => .error .value
+  | .gMonthDay =>
+    match body with
+    | '-' :: '-' :: m1 :: m2 :: '-' :: d1 :: d2 :: tail =>
+      match two m1 m2, two d1 d2, parseTzTail tail with
+      | some mo, some d, some tz => gMk .gMonthDay 0 mo d tz
+      | _, _, _ => .error .value
+    | _ => .error .value
+  | .gDay =>
+    match body with
+    | '-' :: '-' :: '-' :: d1 :: d2 :: tail =>
+      match two d1 d2, parseTzTail tail with
+      | some d, some tz => gMk .gDay 0 0 d tz
+      | _, _ => .error .value
+    | _ => .error .value
+
 /-! ### string forms -/
 
 /-- `'{:0w}'.format(n)` for a natural number -/
@@ -160,5 +207,14 @@ def fmtDateTime (v11 : Bool) (v : DT) : Str := fmtDateBody v11 v ++ 'T' :: fmtTi
 def fmtDate (v11 : Bool) (v : DT) : Str := fmtDateBody v11 v ++ fmtTz v.tz
 /-- `Time.__str__` -/
 def fmtTime (v : DT) : Str := fmtTimeOfDay v.us ++ fmtTz v.tz
+
+/-- `Gregorian*.__str__` -/
+def fmtG (k : GKind) (v11 : Bool) (v : DT) : Str :=
+  match k with
+  | .gYear => fmtYear v11 v.year ++ fmtTz v.tz
+  | .gYearMonth => fmtYear v11 v.year ++ '-' :: pad 2 v.month.toNat ++ fmtTz v.tz
+  | .gMonth => '-' :: '-' :: pad 2 v.month.toNat ++ fmtTz v.tz
+  | .gMonthDay => '-' :: '-' :: pad 2 v.month.toNat ++ '-' :: pad 2 v.day.toNat ++ fmtTz v.tz
+  | .gDay => '-' :: '-' :: '-' :: pad 2 v.day.toNat ++ fmtTz v.tz
 
 end EPV.Cal
